@@ -178,6 +178,11 @@ def core_sites(chk):
                 return True
             # looked up by a helper method of the same class
             return isinstance(v, ast.Call) and any(t.cls is gf.cls for t in ctx.targets(gf, v))
+        if vals and all(v is None for v in vals):
+            # `found, extractor = self._lookup(exception)`: unpacked from a helper method of the same class
+            tup = [n for n in iter_own_nodes(gf.node) if isinstance(n, ast.Assign) and len(n.targets) == 1 and isinstance(n.targets[0], (ast.Tuple, ast.List))
+                   and any(isinstance(e, ast.Name) and e.id == c.func.id for e in n.targets[0].elts)]
+            return len(tup) == len(vals) and all(isinstance(n.value, ast.Call) and any(t.cls is gf.cls for t in ctx.targets(gf, n.value)) for n in tup)
         return bool(vals) and all(v is not None and ok(v) for v in vals)
     for s in site_of(gf, from_registry, "extractor call"):
         out.append((gf, s, "exception extractor"))
